@@ -434,6 +434,7 @@ func diffAt(a, b string) string {
 }
 
 func (ck c03) RunCase(c *Ctx, idx int) *CaseOut {
+	wrapIncludes = false
 	r := NewRng(c.Seed, strSeed("C03"), uint64(idx))
 	cs := genC03(r)
 	out := &CaseOut{}
